@@ -303,7 +303,14 @@ func c03Telemetry(h *H) *c03Pkt {
 	case 0:
 		return &c03Pkt{kind: "progress", progress: proto.Progress{Rows: genU64(h.R), Bytes: genU64(h.R), TotalRows: genU64(h.R), WroteRows: genU64(h.R), WroteBytes: genU64(h.R), ElapsedNs: genU64(h.R)}}
 	case 1:
-		return &c03Pkt{kind: "progress", progress: proto.Progress{Rows: uint64(h.R.Intn(300)), Bytes: uint64(h.R.Intn(70000))}}
+		// keep-alive shaped packets: any subset of the counters is zero (all of them included)
+		p := proto.Progress{Rows: uint64(h.R.Intn(300)), Bytes: uint64(h.R.Intn(70000)), TotalRows: uint64(h.R.Intn(1000)), WroteRows: uint64(h.R.Intn(300)), WroteBytes: uint64(h.R.Intn(70000)), ElapsedNs: uint64(h.R.Intn(1 << 30))}
+		for i, f := range []*uint64{&p.Rows, &p.Bytes, &p.TotalRows, &p.WroteRows, &p.WroteBytes, &p.ElapsedNs} {
+			if i < 2 && h.R.Intn(2) == 0 || i >= 2 && h.R.Intn(3) == 0 {
+				*f = 0
+			}
+		}
+		return &c03Pkt{kind: "progress", progress: p}
 	case 2:
 		return &c03Pkt{kind: "profile", profile: proto.Profile{Rows: genU64(h.R), Blocks: genU64(h.R), Bytes: genU64(h.R), AppliedLimit: h.R.Intn(2) == 0, RowsBeforeLimit: genU64(h.R), CalculatedRowsBeforeLimit: h.R.Intn(2) == 0}}
 	case 3:
